@@ -103,7 +103,7 @@ def c11(tier):
         run_s2c(rep, "MC_Fog", FOG_CFG.format(spec="Spec", segs="Segs", view="View"), R,
                 simulate=dict(num=24, depth=8))
     else:
-        run_s2c(rep, "MC_Fog", FOG_CFG.format(spec="SpecL5", segs="Segs", view="View"), R)
+        run_s2c(rep, "MC_Fog", FOG_CFG.format(spec="SpecL4", segs="Segs", view="View"), R)
         run_s2c(rep, "MC_Fog", FOG_CFG.format(spec="SpecL4", segs="SegsSmall", view="ViewHist"), R)
         run_s2c(rep, "MC_Fog", FOG_CFG.format(spec="Spec", segs="Segs", view="View"), R,
                 simulate=dict(num=240, depth=10))
@@ -235,6 +235,8 @@ def c12(tier):
     need(rep, ["last:set-refused", "last:delsub", "last:del", "has-kv", "has-branch", "has-leaf",
                "failed-write-in-mid-history"])
     binary_traces(rep, tier, {"C12"})
+    if tier == "thorough":
+        recorded_binary_tests(rep, {"C12"})
     return rep.finish()
 
 
@@ -297,7 +299,7 @@ def c14(tier):
         run_s2c(rep, "MC_SMT", smt_cfg(keys="K8", ops=12, emit="INVARIANT EmitSt"), R, simulate=dict(num=96, depth=12))
         run_s2c(rep, "MC_SMT", smt_cfg(depth=64, keys="K64", ops=2, trunc="TFull64", defaults="DBlank"), R)
     else:
-        run_s2c(rep, "MC_SMT", smt_cfg(depth=64, keys="K64", ops=3, trunc="TFull64"), R)
+        run_s2c(rep, "MC_SMT", smt_cfg(depth=64, keys="K64", ops=2, trunc="TFull64"), R)
         run_s2c(rep, "MC_SMT", smt_cfg(depth=256, keys="K256", ops=2, trunc="TFull256"), R)
         run_s2c(rep, "MC_SMT", smt_cfg(keys="K8", ops=4), R)
         run_s2c(rep, "MC_SMT", smt_cfg(depth=16, keys="K16", ops=3, trunc="TFull16"), R)
@@ -305,6 +307,8 @@ def c14(tier):
                 simulate=dict(num=960, depth=16))
     need(rep, ["non-blank-default", "blank-value-written", "absent-key", "calls:calc_root"])
     smt_traces(rep, tier, {"C14"}, quick_sizes=(1, 2, 20))
+    if tier == "thorough":
+        recorded_smt_tests(rep, {"C14"})
     return rep.finish()
 
 
@@ -322,10 +326,10 @@ def c15(tier):
                 simulate=dict(num=96, depth=12))
         run_s2c(rep, "MC_SMT", smt_cfg(depth=64, keys="K64", ops=2, trunc="T64few", defaults="DBlank"), R)
     else:
-        run_s2c(rep, "MC_SMT", smt_cfg(depth=64, keys="K64", ops=3, trunc="T64few"), R)
-        run_s2c(rep, "MC_SMT", smt_cfg(depth=256, keys="K256", ops=3, trunc="T256few"), R)
-        run_s2c(rep, "MC_SMT", smt_cfg(keys="K8", ops=3, trunc="T8"), R)
-        run_s2c(rep, "MC_SMT", smt_cfg(depth=16, keys="K16", ops=3, trunc="T16few"), R)
+        run_s2c(rep, "MC_SMT", smt_cfg(depth=64, keys="K64", ops=2, trunc="T64few"), R)
+        run_s2c(rep, "MC_SMT", smt_cfg(depth=256, keys="K256", ops=2, trunc="T256few", defaults="DBlank"), R)
+        run_s2c(rep, "MC_SMT", smt_cfg(keys="K8", ops=3, trunc="T8few"), R)
+        run_s2c(rep, "MC_SMT", smt_cfg(depth=16, keys="K16", ops=3, trunc="T16few", defaults="DBlank"), R)
         run_s2c(rep, "MC_SMT", smt_cfg(depth=16, keys="K16", ops=16, trunc="T16few", emit="INVARIANT EmitSt"), R,
                 simulate=dict(num=960, depth=16))
     need(rep, ["proof-tracked", "truncated-list-refused", "calls:proof.update"])
@@ -478,7 +482,7 @@ def smt_traces(rep, tier, owners, quick_sizes=(1, 2, 7, 8, 20, 30)):
     # (the JSON reader of TLC's Json module refuses nesting deeper than 255: the decoded tree of a
     # 31- or 32-byte key does not fit; those sizes are covered by the depth-256 spec->code runs)
     sizes = list(quick_sizes) if tier == "quick" else [1, 2, 3, 5, 7, 8, 9, 13, 16, 20, 24, 28, 30]
-    per = 10 if tier == "quick" else 150
+    per = 10 if tier == "quick" else 60
     counts = {}
     from concurrent.futures import ThreadPoolExecutor
 
@@ -522,3 +526,79 @@ def binary_traces(rep, tier, owners):
         for e in t["ev"]:
             key = e["a"] + ("" if e["ok"] is True else "!refused")
             counts[key] = counts.get(key, 0) + 1
+
+
+def recorded_binary_tests(rep, owners):
+    """the repository's own BinaryTrie tests run under harness/recorder_binary.py (a pytest plugin
+    living in /verif; nothing in /repo is touched); what they did is validated by TLC against
+    Trace_Binary.tla like any other trace"""
+    import json
+    import os
+    import subprocess
+    import sys
+
+    from . import binary_driver as bd
+    from .common import REPO, VERIF, MachineryError, scratch
+
+    out = os.path.join(scratch(), "recorded_binary.json")
+    env = dict(os.environ, PYTHONPATH=VERIF + os.pathsep + REPO, VERIF_RECORD_OUT=out, PYTHONHASHSEED="0",
+               HYPOTHESIS_STORAGE_DIRECTORY=os.path.join(scratch(), "hypothesis"))
+    p = subprocess.run([sys.executable, "-m", "pytest", "-q", "-p", "no:cacheprovider", "-p", "harness.recorder_binary",
+                        "--timeout=900", "tests/core/test_bin_trie.py"],
+                       cwd=REPO, env=env, capture_output=True, text=True)
+    if not os.path.exists(out):
+        raise MachineryError("the binary recorder wrote nothing:\n" + p.stdout[-600:] + p.stderr[-300:])
+    d = json.load(open(out))
+    traces = d["traces"]
+    if len(traces) < 10:
+        raise MachineryError(f"only {len(traces)} executions of the repository's binary trie tests were recorded")
+    pipeline.code_to_spec(rep, "Trace_Binary", "Trace_Binary.cfg", traces, consts=("TraceConsts_Binary", bd.consts),
+                          owners=owners, batches=4)
+    last = p.stdout.strip().splitlines()[-1] if p.stdout.strip() else ""
+    rep.cov["repository_tests_recorded"] = {
+        "pytest_summary": last, "executions_validated": len(traces), "tries_followed": d["tries_followed"],
+        "not_recorded": d["skipped"], "tests": sorted({t["test"].split("::")[-1].split("[")[0] for t in traces})}
+    if p.returncode != 0:
+        rep.note("the repository's binary trie tests did not all pass under the recorder: " + last)
+
+
+def recorded_smt_tests(rep, owners):
+    """the repository's own SparseMerkleTree tests under harness/recorder_smt.py, validated by TLC
+    against Trace_SMT.tla (one TLC run per key size)"""
+    import json
+    import os
+    import subprocess
+    import sys
+    from concurrent.futures import ThreadPoolExecutor
+
+    from . import smt_driver as sd
+    from .common import REPO, VERIF, MachineryError, scratch
+
+    out = os.path.join(scratch(), "recorded_smt.json")
+    env = dict(os.environ, PYTHONPATH=VERIF + os.pathsep + REPO, VERIF_RECORD_OUT=out, PYTHONHASHSEED="0",
+               HYPOTHESIS_STORAGE_DIRECTORY=os.path.join(scratch(), "hypothesis"))
+    p = subprocess.run([sys.executable, "-m", "pytest", "-q", "-p", "no:cacheprovider", "-p", "harness.recorder_smt",
+                        "--timeout=900", "tests/core/test_smt.py"],
+                       cwd=REPO, env=env, capture_output=True, text=True)
+    if not os.path.exists(out):
+        raise MachineryError("the SMT recorder wrote nothing:\n" + p.stdout[-600:] + p.stderr[-300:])
+    d = json.load(open(out))
+    traces = d["traces"]
+    if len(traces) < 10:
+        raise MachineryError(f"only {len(traces)} executions of the repository's sparse tree tests were recorded")
+    by_depth = {}
+    for t in traces:
+        by_depth.setdefault(t["depth"], []).append(t)
+
+    def one(depth):
+        pipeline.code_to_spec(rep, "Trace_SMT", "Trace_SMT.cfg", by_depth[depth], consts=("TraceConsts_SMT", sd.consts),
+                              owners=owners, batches=1, heap="3g")
+    with ThreadPoolExecutor(6) as ex:
+        list(ex.map(one, sorted(by_depth)))
+    last = p.stdout.strip().splitlines()[-1] if p.stdout.strip() else ""
+    rep.cov["repository_tests_recorded"] = {
+        "pytest_summary": last, "executions_validated": len(traces), "trees_followed": d["tries_followed"],
+        "key_sizes": sorted(k // 8 for k in by_depth), "not_recorded": d["skipped"],
+        "tests": sorted({t["test"].split("::")[-1].split("[")[0] for t in traces})}
+    if p.returncode != 0:
+        rep.note("the repository's sparse tree tests did not all pass under the recorder: " + last)
